@@ -473,13 +473,23 @@ def file_topology(d):
     j11, j21, j12, j22, nyi, ix1, ix2 = (g[k] for k in ("jyseps1_1", "jyseps2_1", "jyseps1_2", "jyseps2_2", "ny_inner", "ixseps1", "ixseps2"))
     dn = j21 != j12
     fails, n = [], 0
+    if j11 == -1 and j22 == ny:
+        # grids without X-points are written with jyseps2_2 = ny; BOUT++ clamps it to ny-1 when
+        # loading (same topology), so it is read as ny-1 here
+        j22 = ny - 1
     if not (-1 <= j11 <= j21 <= j12 <= j22 <= ny - 1):
         fails.append(dict(problem="jyseps not ordered", values=g))
-    # map guard-free y -> array index
+    # map guard-free y -> array index.  Boundary guard cells exist only at targets: none on a
+    # core-only grid (array length == ny), myg at each of 2 (single null, limiter) or 4 targets
+    n_arr = np.array(f["Rxy"]).shape[1]
+    extra = n_arr - ny
+    if extra not in (0, 2 * myg, 4 * myg):
+        return result("file topology", 1, [dict(problem="array length is not ny + (0|2|4)*y_boundary_guards", ny=ny, array_ny=int(n_arr), y_boundary_guards=myg)])
+    g_lo = myg if extra > 0 else 0
+    g_up = 2 * myg if extra == 4 * myg else 0
+
     def aidx(y):
-        if dn:
-            return y + myg if y < nyi else y + 3 * myg
-        return y + myg
+        return y + g_lo + (g_up if (dn and y >= nyi) else 0)
 
     def up(x, y):
         if y == j11 and x < ix1:
@@ -491,6 +501,8 @@ def file_topology(d):
         if dn and y == j12 and x < ix2:
             return j21 + 1
         if (dn and y == nyi - 1) or y == ny - 1:
+            return None
+        if y + 1 > ny - 1:
             return None
         return y + 1
 
